@@ -82,6 +82,8 @@ func Generate(r *prng.Rand, name string) *Schema {
 	return g.s
 }
 
+var tagComments = []string{"[tag(json:\"f,omitempty\")]", "[tag(db:\"col\")]", "[tag(flagged)]", "[tag(json:\"more colons::\")]"}
+
 var commentTexts = []string{" doc", " two\n lines", " stars * and / slashes", " unicode \u00e9\u4e16", " x", " trailing star *", " [not a tag]", " looks like code: struct X { }"}
 
 func (g *gen) comment() string {
@@ -201,6 +203,9 @@ func (g *gen) structDef(name string, top bool) *Def {
 	for i := 0; i < n; i++ {
 		f := Field{Name: g.nm.fresh(false), Type: g.fieldType(0, KStruct, name)}
 		f.Deprecated = g.r.Chance(1, 10)
+		if g.r.Chance(1, 6) {
+			f.Comment = tagComments[g.r.Intn(len(tagComments))]
+		}
 		d.Fields = append(d.Fields, f)
 	}
 	return d
@@ -231,6 +236,9 @@ func (g *gen) messageDef(name string, top bool) *Def {
 		f.Deprecated = g.r.Chance(1, 6)
 		if g.r.Chance(1, 6) {
 			f.Comment = commentTexts[g.r.Intn(len(commentTexts))]
+		}
+		if g.r.Chance(1, 6) {
+			f.Comment = tagComments[g.r.Intn(len(tagComments))]
 		}
 		d.Fields = append(d.Fields, f)
 	}
